@@ -2,8 +2,8 @@ package flows
 
 import (
 	"reflect"
-	"strconv"
 
+	"github.com/nyaruka/goflow/contactql"
 	"github.com/nyaruka/goflow/envs"
 	"github.com/nyaruka/goflow/excellent/types"
 )
@@ -54,5 +54,5 @@ var RunContextTopLevels = []string{
 
 // ContactQueryEscaping is the escaping function used for expressions in contact queries
 func ContactQueryEscaping(s string) string {
-	return strconv.Quote(s)
+	return contactql.QuoteValue(s)
 }
